@@ -65,6 +65,7 @@ var c02Full = append(append([]string{}, c02Core...),
 	"BenchmarkX 99999999999999999999 1 u",
 	"BenchmarkX 1 1 u 2 v 3 w",
 	"BenchmarkX 1 NaN u -1e-320 v",
+	"BenchmarkX 1 0 ns/op +Inf MB/s -0 ns/op",
 	"BenchmarkX\t1\t1\tu\t",
 	"Unit",
 	"Unit u",
